@@ -206,7 +206,22 @@ func (g *G) stmtOf(c string, declsAllowed bool) []*Node {
 		cnt, key := g.fresh("n"), g.fresh("k")
 		g.declare(cnt, kNum)
 		obj := g.expr(kObj, 2)
+		if g.coin(35, "forinchain") {
+			// an object with enumerable properties on itself and on its prototype
+			inner := N("obj", NS("prop", "p", Num(1)), NS("prop", pick(g, propPool, "fp1"), Num(2)))
+			obj = Call(Dot(Id("Object"), "create"), inner)
+		}
 		body := Block(ExprStmt(&Node{K: "postupd", S: "++", C: []*Node{Id(cnt)}}))
+		switch g.n(0, 5, "forinexit") { // order-insensitive exits: the count is the same whatever the enumeration order
+		case 0:
+			body.C = append(body.C, NS("break", ""))
+		case 1:
+			body.C = append(body.C, NS("continue", ""), ExprStmt(Call(Id("log"), Str("unreachable"))))
+		case 2:
+			if g.sc.inFunc {
+				body.C = append(body.C, N("return", Id(cnt)))
+			}
+		}
 		return []*Node{
 			N("var", NS("decl", cnt, Num(0))),
 			NS("forin", "var", Id(key), obj, body),
@@ -522,6 +537,47 @@ func (g *G) caseBody() []*Node {
 
 func (g *G) tryStmt(forceThrow bool) *Node {
 	tb := Block()
+	if g.sc.inFunc && g.coin(35, "tryreturn") {
+		// abrupt completion of the try block by return: the value is fixed when return executes,
+		// whatever catch/finally do afterwards
+		tb.C = append(tb.C, g.stmts(g.n(0, 1, "npreret"), false)...)
+		var rv *Node
+		switch g.n(0, 3, "retform") {
+		case 0:
+			if vs := g.varsOf(kAny); len(vs) > 0 {
+				rv = Id(pick(g, vs, "retvar"))
+			} else {
+				rv = g.expr(kAny, 1)
+			}
+		case 1:
+			rv = Dot(g.objRef(), pick(g, propPool, "retprop"))
+		case 2:
+			rv = Id(pick(g, []string{"zz", "undeclared"}, "retundecl")) // ReferenceError raised inside the try block
+		default:
+			rv = g.expr(kAny, 2)
+		}
+		tb.C = append(tb.C, N("return", rv))
+		catch, fin := Empty(), Empty()
+		mode := g.n(0, 2, "trymode2")
+		if mode != 1 {
+			g.push(false)
+			g.declare("e", kAny)
+			cb := Block(ExprStmt(Call(Id("log"), Str("caught"), g.describeCaught())))
+			cb.C = append(cb.C, g.stmts(g.n(0, 1, "ncatch2"), false)...)
+			g.pop()
+			catch = NS("catch", "e", cb)
+		}
+		if mode != 0 {
+			fb := Block(ExprStmt(Call(Id("log"), Str("finally"))))
+			// the finally block changes what the returned expression referred to
+			if rv.K == "id" || rv.K == "dot" {
+				fb.C = append(fb.C, ExprStmt(&Node{K: "assign", S: "=", C: []*Node{rv, g.expr(kVal, 1)}}))
+			}
+			fb.C = append(fb.C, g.stmts(g.n(0, 1, "nfin2"), false)...)
+			fin = fb
+		}
+		return N("try", tb, catch, fin)
+	}
 	if forceThrow || g.coin(50, "throws") {
 		pre := g.stmts(g.n(0, 1, "npre"), false)
 		tb.C = append(tb.C, pre...)
